@@ -150,7 +150,8 @@ Print Assumptions C16_success_keeps_only_own_inputs_locked_renter.
 
 (** The code before the repairs does not satisfy the release theorems (F7): in each of the
     three handlers a request whose basis cannot be rebased leaves host outputs locked, and
-    repeating it exhausts the host's spendable outputs; the renew and refresh renter
+    repeating it exhausts the host's spendable outputs; a failed request naming an output
+    reserved for another exchange unlocked it; the renew and refresh renter
     functions kept their inputs locked when dialing failed. *)
 Theorem C16_release_prefix_refuted :
   ∀ k, ∃ e h m1 m2,
@@ -158,6 +159,14 @@ Theorem C16_release_prefix_refuted :
     w_locked (h_wallet (ho_host (host_run false k e h m1 m2))) ≠ w_locked (h_wallet h).
 Proof. exact release_prefix_refuted. Qed.
 Print Assumptions C16_release_prefix_refuted.
+
+Theorem C16_release_prefix_overrelease_refuted :
+  ∀ k, ∃ e h m1 m2,
+    ho_ok (host_run false k e h m1 m2) = false ∧
+    (9%N ∈ w_locked (h_wallet h)) ∧
+    ¬ (9%N ∈ w_locked (h_wallet (ho_host (host_run false k e h m1 m2)))).
+Proof. exact release_prefix_overrelease_refuted. Qed.
+Print Assumptions C16_release_prefix_overrelease_refuted.
 
 Theorem C16_release_prefix_exhausts_refuted :
   ∃ l h, Forall (λ b, b = false) (snd (host_attempts false h l)) ∧
